@@ -10358,15 +10358,6 @@ int cg_conn_write(int fn, int B, int Z,  const char * connectname,
         return CG_ERROR;
     }
 
-     /* Allocate ZoneGridConnectivity data struct. if not already created */
-    if (zone->nzconn == 0) {
-        zone->nzconn = zone->active_zconn = 1;
-        zone->zconn = CGNS_NEW(cgns_zconn, 1);
-        strcpy(zone->zconn->name,"ZoneGridConnectivity");
-    }
-    zconn = cgi_get_zconn(cg, B, Z);
-    if (zconn == 0) return CG_ERROR;
-
      /* IndexDimension & CellDimension */
     index_dim = zone->index_dim;
     cell_dim=cg->base[B-1].cell_dim;
@@ -10419,6 +10410,15 @@ int cg_conn_write(int fn, int B, int Z,  const char * connectname,
         cgi_error("Invalid input for ndata_donor in cg_conn_write");
         return CG_ERROR;
     }
+
+     /* Allocate ZoneGridConnectivity data struct. if not already created */
+    if (zone->nzconn == 0) {
+        zone->nzconn = zone->active_zconn = 1;
+        zone->zconn = CGNS_NEW(cgns_zconn, 1);
+        strcpy(zone->zconn->name,"ZoneGridConnectivity");
+    }
+    zconn = cgi_get_zconn(cg, B, Z);
+    if (zconn == 0) return CG_ERROR;
 
      /* Overwrite a GridConnectivity_t Node: */
     for (index=0; index<zconn->nconns; index++) {
